@@ -73,3 +73,36 @@ def run(ctx):
             r.fail(rule, 'SecureChannel:remote-keys', 'SecureChannel has a single remote key slot (%s) that derive_keys overwrites: after a renewal a message '
                    'secured under the previous token can no longer be verified' % ', '.join(n for n, t in remote_slots or keyish), loc='%s:%s' % (adt['loc']['f'], adt['loc']['l']))
         r.floor(rule, 'key_fields', len(keyish), 2)
+    nonce_setters_replace(ctx)
+
+
+def nonce_setters_replace(ctx, rule='nonce-setters-replace'):
+    """a renewal re-uses the same SecureChannel object: set_local_nonce / set_remote_nonce must REPLACE the stored nonce with
+    their argument (clear, then extend with the whole argument - or assign), otherwise the second key derivation on one side
+    uses old||new while the peer uses new, and every message after the first renewal is refused"""
+    r, db = ctx.r, ctx.db
+    n = 0
+    for fn, fld, arg in (('set_local_nonce', '.local_nonce', 'local_nonce'), ('set_remote_nonce', '.remote_nonce', 'remote_nonce')):
+        b = db.body(SC + '::' + fn)
+        if b is None:
+            r.lost(rule, fn, 'SecureChannel::%s not found' % fn); continue
+        F = ctx.facts(b)
+        n += 1
+        muts = [(c, c.callee.rsplit('::', 1)[-1]) for c in b.calls() if c.args and fmt_sym(b, F.sym_operand(c.args[0])).endswith(fld)]
+        names = [m for c, m in muts]
+        assigns = [st for blk in b.blocks for st in blk['s'] if st[0] == '=' and st[1][1] and st[1][1][-1] == fld]
+        ok = False
+        if assigns and not muts:
+            ok = True
+        elif names == ['clear', 'extend_from_slice']:
+            c0, c1 = muts[0][0], muts[1][0]
+            a = fmt_sym(b, F.sym_operand(c1.args[1]))
+            ps = b.local_by_name(arg)
+            ok = b.dominates(c0.bb, c1.bb) and ps and a in ('&(*%s(_%d))' % (arg, ps[0]), '%s(_%d)' % (arg, ps[0]))
+        if ok:
+            r.ok(rule, fn, '%s replaces the stored nonce with its argument' % fn, loc=b.loc)
+        else:
+            r.fail(rule, fn, 'SecureChannel::%s does not replace the stored nonce (operations on %s: %s): after a renewal the two sides derive keys from different nonces'
+                   % (fn, fld[1:], names or 'assignment'), loc=b.loc)
+    r.count('nonce_setters', n)
+    r.floor(rule, 'nonce_setters', n, 2)
